@@ -14,7 +14,10 @@
 (*            five tags in three spellings, platform, media type list,       *)
 (*            backup shape, switches, parallel 0-4, populations of four      *)
 (*            source repositories, 2-4 runs of any mode with source tags     *)
-(*            moved, deleted and moved back in between                       *)
+(*            moved, deleted and moved back in between; one scripted fault   *)
+(*            (registry x request class x 1st-6th request of the class x     *)
+(*            kind: 404 / 410 / 416 / 403 / 400 / 405 / transient) in 50 % of*)
+(*            the first and 20 % of the later runs (round 5)                 *)
 (* Both add `env`, the environment of the runs (EnvDraw), which the design  *)
 (* does not look at.                                                        *)
 (* Random draws are taken in one step into the variable `draws` (explicit   *)
@@ -41,6 +44,14 @@ TgtW == <<"", "", "", "same", "same", "same", "same", "A", "B", "C", "X", "Xa", 
 T5s == <<"v1", "v10", "xv2", "v2", "latest", "V2">>     \* the pool: five tags and a case variant
 Grid == <<"r1", "r2", "r10", "xr2">>
 
+\* registry x request class of the scripted fault (reads of the source, writes / probes of the target;
+\* HEAD of the target tag and the backup copy are not faulted, see RegSync) and its kind: not-found
+\* flavours, refusals, transient ones that regclient retries
+FaultW == << <<"src", "blob_get">>, <<"src", "blob_get">>, <<"src", "blob_get">>, <<"src", "manifest_get">>, <<"src", "manifest_get">>,
+             <<"src", "manifest_get">>, <<"src", "manifest_head">>, <<"src", "tag_list">>, <<"src", "catalog">>, <<"src", "referrers">>,
+             <<"tgt", "upload_post">>, <<"tgt", "upload_put">>, <<"tgt", "upload_patch">>, <<"tgt", "manifest_put">>, <<"tgt", "manifest_put">>,
+             <<"tgt", "blob_head">>, <<"tgt", "tag_list">>, <<"tgt", "referrers">> >>
+KindW == <<"404", "404", "404", "404", "404e", "410", "416", "403", "403", "400", "405", "500once", "reset1">>
 \* the environment of a run, which the design does not look at: page size of the registries'
 \* listings, which registries omit Docker-Content-Digest (regclient then falls back from HEAD to
 \* GET), blob mount / single POST upload support of the registries, regclient's cache and chunked
@@ -69,6 +80,9 @@ Draw(z) ==
    src |-> TLCEval([i \in 1..24 |-> W(ImgW)]), tgt |-> TLCEval([i \in 1..24 |-> W(TgtW)]),
    dt |-> RandomElement(1..3), xt |-> TLCEval([i \in 1..4 |-> W(<<"", "", "A", "B", "C">>)]),
    nruns |-> W(<<2, 2, 3, 3, 4>>),
+   fl |-> TLCEval([i \in 1..4 |->
+            IF RandomElement(1..100) <= (IF i = 1 THEN 50 ELSE 20)
+            THEN LET c == W(FaultW) IN Flt(c[1], c[2], W(<<1, 1, 1, 1, 2, 2, 3, 4, 6>>), W(KindW)) ELSE NoF]),
    modes |-> TLCEval([i \in 1..4 |-> W(<<"once", "once", "once", "once", "check", "missing">>)]),
    nmv |-> TLCEval([i \in 1..3 |-> W(<<0, 1, 1, 2>>)]),
    mv |-> TLCEval([i \in 1..6 |-> [repo |-> W(<<"r1", "r1", "r2">>), tag |-> W(<<"v1", "v1", "v2", "latest", "v10", "V2">>),
@@ -125,7 +139,8 @@ PlanOf(d) ==
   LET mvs(i) == [j \in 1..d.nmv[i] |->
                    LET m == d.mv[2 * (i - 1) + j] IN
                    Move(m.repo, m.tag, IF m.img = "orig" THEN SrcImg(d, m.repo, m.tag) ELSE m.img)]
-      seg(i) == IF i = 1 THEN <<Run(d.modes[1])>> ELSE mvs(i - 1) \o <<Run(d.modes[i])>>
+      run(i) == IF d.fl[i] = NoF THEN Run(d.modes[i]) ELSE RunF(d.modes[i], d.fl[i])
+      seg(i) == IF i = 1 THEN <<run(1)>> ELSE mvs(i - 1) \o <<run(i)>>
   IN IF d.nruns = 2 THEN seg(1) \o seg(2)
      ELSE IF d.nruns = 3 THEN seg(1) \o seg(2) \o seg(3)
      ELSE seg(1) \o seg(2) \o seg(3) \o seg(4)
@@ -145,7 +160,7 @@ GSetup == /\ phase = "setup" /\ drawn
           /\ UNCHANGED <<draws, drawn, hist>>
 TgtSide == {x \in world : x[1] # "src" \/ x[2] \in MirrorRepos}
 GEnd == /\ EndRun
-        /\ hist' = Append(hist, [mode |-> mode, exit |-> IF errs = {} THEN 0 ELSE 1, nw |-> nw, tags |-> TgtSide])
+        /\ hist' = Append(hist, [mode |-> mode, exit |-> IF errs = {} THEN 0 ELSE 1, nw |-> nw, tags |-> TgtSide, fhit |-> fault.hit])
         /\ UNCHANGED <<draws, drawn, scn>>
 GNext == \/ GDraw \/ GSetup \/ GEnd
          \/ /\ (StartRun \/ EnvMove \/ Idle \/ \E k \in DOMAIN proc : Step(k))
